@@ -440,6 +440,35 @@ func c03MantExp(c *mc.Check, offsets int) {
 	f.Done()
 }
 
+func c03Exponents(c *mc.Check) {
+	f := c.Family("exponent-digit-strings", "exponents written with 1 to 26 digits (all nines, a one followed by zeros, leading zeros in front of a small exponent, the digits of 2^31, 2^32, 2^63, 2^64 and their neighbours) × sign {none,+,-} × mantissas 1, 2.5, 0, 0.001e, 123456789 and the hexadecimal 0x1p / 0x1.8p forms: an exponent too large for any accumulator is still out of range (or rounds to zero) exactly as the standard parser says; compared with strconv; non-trivial = exponents of ≥10 digits", c03Replay)
+	if c.Replaying() {
+		return
+	}
+	var exps []string
+	for n := 1; n <= 26; n++ {
+		exps = append(exps, strings.Repeat("9", n), "1"+strings.Repeat("0", n-1), strings.Repeat("0", n-1)+"7", strings.Repeat("0", n)+"308")
+	}
+	for _, v := range []string{"2147483647", "2147483648", "4294967295", "4294967296", "4294967297", "9223372036854775807", "9223372036854775808",
+		"18446744073709551615", "18446744073709551616", "18446744073709551617", "18446744073709551618", "18446744073709551926", "36893488147419103232", "100000", "99999", "10000", "9999", "400", "308", "324"} {
+		exps = append(exps, v)
+	}
+	var texts []string
+	for _, e := range exps {
+		for _, sign := range []string{"", "+", "-"} {
+			for _, m := range []string{"1", "2.5", "0", "0.001", "123456789", "-1"} {
+				texts = append(texts, m+"e"+sign+e, m+"E"+sign+e)
+			}
+			for _, m := range []string{"0x1", "0x1.8", "-0x1"} {
+				texts = append(texts, m+"p"+sign+e)
+			}
+		}
+	}
+	c03RunList(c, f, texts, []string{"value"})
+	f.Sample(c03Case{"value", "1e18446744073709551617"})
+	f.Done()
+}
+
 func c03Integers(c *mc.Check) {
 	f := c.Family("integer-boundaries", "integers B+δ (δ∈−25..25) around 2^53, 2^63, 2^64, (MaxInt64−10)/10 and its ×10, 10^18, 10^19, 10^22, 10^23, each also ×10^k (k≤21) and with suffixes .0 .5 e0 and leading zeros / signs, and written with underscore-separated digit groups, in both fields; compared with strconv; non-trivial = strconv accepts", c03Replay)
 	if c.Replaying() {
@@ -555,6 +584,7 @@ func TestVerifC03(t *testing.T) {
 	c03HexHalfway(c, mc.Pick(c, 8, 12))
 	c03Powers(c)
 	c03MantExp(c, mc.Pick(c, 12, 27))
+	c03Exponents(c)
 	c03Integers(c)
 	c03Special(c)
 	c03Shortest(c, mc.Pick(c, 64, 1024), mc.Pick(c, 20000, 200000))
